@@ -22,6 +22,12 @@ use crate::rng::derive;
 pub const VERIF_DIR: &str = "/verif";
 pub const DEFAULT_SEED: u64 = 20_260_925;
 
+/// Where evidence and replay files go: /verif, unless a sensitivity run
+/// (which must not overwrite the real evidence) redirects them.
+pub fn out_dir() -> String {
+    std::env::var("SLX_OUT_DIR").unwrap_or_else(|_| VERIF_DIR.to_string())
+}
+
 #[derive(Copy, Clone, Debug, PartialEq, Eq)]
 pub enum Tier {
     Quick,
@@ -461,7 +467,7 @@ pub fn run_pool(check: &'static dyn Check, tier: Tier, base: u64, n_workers: usi
 static REPLAY_COUNTER: Mutex<u64> = Mutex::new(0);
 
 pub fn write_replay(v: &Violation, base: u64) -> String {
-    let dir = format!("{VERIF_DIR}/replays");
+    let dir = format!("{}/replays", out_dir());
     let _ = std::fs::create_dir_all(&dir);
     let mut n = REPLAY_COUNTER.lock().unwrap();
     *n += 1;
@@ -528,7 +534,7 @@ pub fn judge(id: &str, agg: &Aggregate, base: u64, max_reports: usize) -> Verdic
 
 pub fn write_evidence(check: &dyn Check, tier: Tier, base: u64, agg: &Aggregate, verdict: &Verdict, wall: f64) {
     let info = check.info();
-    let dir = format!("{VERIF_DIR}/evidence");
+    let dir = format!("{}/evidence", out_dir());
     let _ = std::fs::create_dir_all(&dir);
     let runs_per_hour = if wall > 0.0 { (agg.runs as f64 / wall * 3600.0) as u64 } else { 0 };
     let mut coverage = json!({
